@@ -74,6 +74,50 @@ def near_path_hashes(struct, nib):
     return out
 
 
+def needed_for_write(struct, nib, is_delete):
+    """Hashes of the node bodies a set / delete of nib really needs: the hashed nodes on the path of nib, plus --
+    for a delete that removes a stored key and leaves a branch with a single child and no value -- that one
+    remaining child (it is read to normalise the branch).  Nothing else lies "on the requested path"."""
+    out = set()
+    steps = walk(struct, nib)
+    for prefix, node, hashed in steps:
+        if hashed:
+            out.add(hkey(node))
+    if not is_delete or yp.lookup(struct, nib) == b"":
+        return out
+    # the branch from which the key (its leaf child or its own value) is removed
+    k = tuple(nib)
+    for prefix, node, hashed in reversed(steps):
+        if node[0] != "branch":
+            continue
+        rem = k[len(prefix):]
+        kids = list(node[1])
+        val = node[2]
+        if not rem:
+            val = b""                      # the value stored at the branch is cleared
+        else:
+            sub = kids[rem[0]]
+            # the child under rem[0] disappears only if it holds nothing but this key
+            if sub[0] == "leaf" or (sub[0] != "blank" and _only_key(sub, rem[1:])):
+                kids[rem[0]] = ("blank",)
+            else:
+                break                      # deeper structure remains: this branch keeps its child
+        left = [c for c in kids if c[0] != "blank"]
+        if len(left) == 1 and not val:
+            c = left[0]
+            if len(yp.rlp(yp.raw(c))) >= 32:
+                out.add(hkey(c))
+        break
+    return out
+
+
+def _only_key(node, rem):
+    """does the subtree hold exactly the one key rem?"""
+    if node[0] == "leaf":
+        return tuple(node[1]) == tuple(rem)
+    return False
+
+
 def snapshot(t):
     return (t.root_hash, dict(t.db.copy()), dict(t._ref_count) if t.is_pruning else None, t._pending_prune_keys)
 
@@ -181,7 +225,7 @@ def write_op(make_trie, full, struct, mu, root, op, missing, p, shape, cfg):
     mu2 = dict(mu)
     H.apply_model(mu2, op)
     want_root = yp.root(mu2)
-    near = near_path_hashes(struct, nib)
+    near = needed_for_write(struct, nib, op[0] != "set" or op[2] == b"")
     asked = []
     for attempt in range(len(missing) + 2):
         before = snapshot(t)
